@@ -52,7 +52,7 @@ def type_payload(rng, t):
     return rng.randbytes(rng.choice([0, 0, 4, 8, rng.randrange(0, 24)]))
 
 
-def handshake(ctx, kex, strict_c, strict_s, edit, short_timeout=False, follows=None):
+def handshake(ctx, kex, strict_c, strict_s, edit, short_timeout=False, follows=None, preset=None):
     """one handshake through the relay; returns per-peer observations.  follows = (which side lies, "wrong"|"right"):
     that side's KEXINIT claims first_kex_packet_follows, with a first-listed kex method that is / is not the one that
     gets negotiated (it offers one method more than the other side)."""
@@ -81,6 +81,9 @@ def handshake(ctx, kex, strict_c, strict_s, edit, short_timeout=False, follows=N
         ts._modulus_pack = L.modulus_pack()
     ts.add_server_key(L.host_key())
     wait = 1.5 if short_timeout else 60
+    if preset:
+        # the victim's inbound counter as it stands after `value` earlier packets of this (initial) exchange
+        (tc if preset[0] == "client" else ts).packetizer._Packetizer__sequence_number_in = preset[1]
     taps = {"client": L.Tap(tc), "server": L.Tap(ts)}
     r1, r2 = L.Relay(c2, s1, "c2s", edit), L.Relay(s1, c2, "s2c", edit)
     r1.start()
@@ -306,6 +309,12 @@ def run(ctx):
                         jobs.append((kex, sc, ss, ("inject", nm, d, pos)))
                     if (sc == ss and (kex == kexes[0] or ctx.thorough)):
                         jobs.append((kex, sc, ss, ("delete", "-", d, pos)))
+    # the inbound counter just before the 32-bit wrap, then k stray IGNORE/DEBUG packets in front of the peer's KEXINIT:
+    # the roll-over guard has to end the session (controls: counter 0, and counter far from the wrap)
+    for d, vic in (("c2s", "server"), ("s2c", "client")):
+        for k, value in ((1, 2 ** 32 - 1), (2, 2 ** 32 - 2), (3, 2 ** 32 - 3), (1, 0), (1, 2 ** 32 - 2), (2, 2 ** 31)):
+            nm = rng.choice(["IGNORE", "DEBUG"])
+            jobs.append((kexes[0], True, True, ("inject", "WRAP:%d:%s" % (k, nm), d, 0), None, (vic, value)))
     # a peer whose KEXINIT claims "first kex packet follows" (right or wrong guess), and one stray message right behind
     # that KEXINIT: it is judged like any other
     for liar, d in (("client", "c2s"), ("server", "s2c")):
@@ -345,9 +354,11 @@ def run(ctx):
                 return
             kex, sc, ss, ed = jobs[i][:4]
             fol = jobs[i][4] if len(jobs[i]) > 4 else None
+            pre = jobs[i][5] if len(jobs[i]) > 5 else None
 
             def edit(direction, idx, t, pkt, ed=ed):
-                if ed is not None and ed[1].startswith(("TYPE:", "SHAPE:")) and direction != ed[2] and t not in KEX_TYPES:
+                if ed is not None and ed[1].startswith(("TYPE:", "SHAPE:", "WRAP:")) and direction != ed[2] \
+                        and t not in KEX_TYPES:
                     return []            # the victim's plaintext reaction never reaches the other side
                 if ed is None or direction != ed[2] or idx != ed[3]:
                     return [pkt]
@@ -359,6 +370,10 @@ def run(ctx):
                     return [L.plain_packet(int(ed[1][5:]), bytes.fromhex(ed[4])), pkt]
                 if ed[1].startswith("SHAPE:"):
                     return [SHAPES[ed[1][6:]], pkt]
+                if ed[1].startswith("WRAP:"):
+                    _w, k, nm = ed[1].split(":")
+                    t2, pl = INJECT[nm]
+                    return [L.plain_packet(t2, pl)] * int(k) + [pkt]
                 t2, pl = INJECT[ed[1]]
                 return [L.plain_packet(t2, pl), pkt]
 
@@ -366,7 +381,7 @@ def run(ctx):
                 # edits that put plaintext into the encrypted stream (or drop NEWKEYS) leave a reader waiting for a
                 # garbage length: bounded waits there
                 risky = bool(ed and (ed[0] == "delete" or ed[1] == "DUPLICATE"))
-                results[i] = handshake(ctx, kex, sc, ss, edit, short_timeout=risky, follows=fol)
+                results[i] = handshake(ctx, kex, sc, ss, edit, short_timeout=risky, follows=fol, preset=pre)
             except Exception as e:  # noqa
                 errors.append((jobs[i], e))
 
@@ -389,11 +404,14 @@ def run(ctx):
         kex, sc, ss, ed = job[:4]
         victim = None if ed is None else ("server" if ed[2] == "c2s" else "client")
         case = {"kex": kex, "strict_client": sc, "strict_server": ss, "edit": ed}
-        if len(job) > 4:
+        if len(job) > 4 and job[4]:
             case["first_kex_packet_follows"] = {"claimed_by": job[4][0], "guess": job[4][1]}
             ctx.dist("kex-follows:%s-guess" % job[4][1])
+        if len(job) > 5 and job[5]:
+            case["inbound_counter_preset"] = {"side": job[5][0], "value": job[5][1]}
+            ctx.dist("counter-preset:2^32-%d" % (2 ** 32 - job[5][1]) if job[5][1] > 2 ** 31 else "counter-preset:%d" % job[5][1])
         ctx.case(tuple(job), ed is not None)
-        ctx.dist("edit:" + ("none" if ed is None else ed[0] + ":" + ("TYPE" if ed[1].startswith("TYPE:") else ed[1])))
+        ctx.dist("edit:" + ("none" if ed is None else ed[0] + ":" + ("TYPE" if ed[1].startswith("TYPE:") else "WRAP" if ed[1].startswith("WRAP:") else ed[1])))
         ctx.dist("strict:%d%d" % (sc, ss))
         if i % 37 == 0:
             ctx.sample({"case": case, "client_rx": [r[:2] for r in res["client"]["rx"]],
@@ -436,6 +454,13 @@ def run(ctx):
             o = res[name]
             strict = sc if name == "client" else ss
             rq = model_requests(name, strict, KEX[kex], o)
+            pre = job[5] if len(job) > 5 else None
+            if pre and pre[0] == name:
+                rq.insert(1, "seqin %d" % pre[1])
+                if o["err"] == "rollover" and ed[1].startswith("WRAP:"):
+                    # the packet whose number would have been 2^32 was never handed over (read_message raised)
+                    rq.append("recv %d - - 1 0 -" % INJECT[ed[1].split(":")[2]][0]
+                              if len(o["rx"]) < int(ed[1].split(":")[1]) else "recv 20 - malformed 1 0 -")
             index.append((len(reqs), len(rq), case, name, o))
             reqs += rq
 
